@@ -406,7 +406,7 @@ FUNC_STAGE = [
     ("_normalize_time_period_columns", None, "SLoadNormalize"),
     ("validate_no_duplicates", None, "SLoadValidate"), ("validate_temporal_columns", None, "SLoadValidate"),
     ("_validate_loaded_table", "DROP TABLE", "SDrop"), ("_validate_loaded_table", None, "SLoadValidate"),
-    ("_create_empty_table", None, "SLoadCreate"),
+    ("_create_table", None, "SLoadCreate"), ("_create_empty_table", None, "SLoadCreate"),
     ("register_dataframes", "build_create_table_sql", "SLoadCreate"), ("register_dataframes", None, "SLoadInsert"),
     ("load_datapoints_duckdb", "build_create_table_sql", "SLoadCreate"), ("load_datapoints_duckdb", None, "SLoadInsert"),
     ("_load_parquet", "build_create_table_sql", "SLoadCreate"), ("_load_parquet", None, "SLoadInsert"),
